@@ -244,6 +244,7 @@ def make_grammar(gx):
     make_declaration_grammar(g, gx)
     from spec.grammar_decl import add_variants
     add_variants(g, gx)
+    add_value_variants(g, gx)
     return g
 
 
@@ -382,3 +383,19 @@ def make_statement_grammar(g: Grammar, gx):
            build=lambda v, gx: [A.StaticAssert(v[2], v[4], co(v[0]))], label="static_assert ( constant-expression , string-literal )")
     g.prod("static-assert", [T("_STATIC_ASSERT"), T("LPAREN"), N("constant-expression"), T("RPAREN")],
            build=lambda v, gx: [A.StaticAssert(v[2], None, co(v[0]))], label="static_assert ( constant-expression )  [C23/ext]")
+
+
+def add_value_variants(g, gx):
+    """Result shapes a callee's contract allows besides an opaque node (each slot is varied in turn)."""
+    A = gx.c_ast
+    OP = lambda m, tag="": gx.Opaque(f"{m.nt}#{m.mid}{tag}", gx.Coord("f.c", 900 + m.mid, 1))  # noqa: E731
+    co = lambda m: gx.Coord("f.c", 900 + m.mid, 1)  # noqa: E731
+    # a parenthesised comma expression is a primary expression whose value is an ExprList
+    exprs = [lambda gx, m: OP(m), lambda gx, m: A.ExprList([OP(m, "a"), OP(m, "b")], co(m))]
+    for nt in ("expression", "assignment-expression", "conditional-expression", "binary-expression", "cast-expression",
+               "unary-expression", "postfix-expression", "primary-expression", "constant-expression", "initializer"):
+        g.nts[nt].value_variants = exprs
+    # a statement may be a braced block
+    stmts = [lambda gx, m: OP(m), lambda gx, m: A.Compound([OP(m, "s")], co(m)), lambda gx, m: A.Compound(None, co(m))]
+    for nt in ("statement", "pragmacomp-or-statement"):
+        g.nts[nt].value_variants = stmts
